@@ -55,11 +55,39 @@ def _partition(rng, n, T):
 def build(spec):
     """spec -> dict of fields (fresh objects every call)."""
     rng = random.Random(spec["seed"])
-    return BUILDERS[spec["type"]](rng, spec, spec["ctx"])
+    ctx = spec["ctx"]
+    if spec.get("role") == "ref" and "base_seed" in ctx and spec["type"] in DERIVED_TYPES and spec.get("n") is None:
+        rng = _base_rng(ctx, spec["type"])  # the reference IS the run's base annotation of its type
+    return BUILDERS[spec["type"]](rng, spec, ctx)
+
+
+DERIVED_TYPES = ("events", "notes", "patterns", "multipitch")
+
+
+def _derive(spec, ctx, typ):
+    """Estimates are, most of the time, perturbed copies of the run's base annotation of that type
+    (so that matching / thresholding code sees partial agreement, not two unrelated annotations)."""
+    return spec.get("role") == "est" and "base_seed" in ctx and (spec["seed"] % 10) < 7 and spec.get("n") is None
+
+
+def _base_rng(ctx, typ):
+    return random.Random("%s:%s" % (ctx["base_seed"], typ))
 
 
 def b_events(rng, spec, ctx):
     np = _np()
+    if _derive(spec, ctx, "events"):
+        base = b_events(_base_rng(ctx, "events"), {"role": "ref", "seed": 0, "n": None}, ctx)["ev"].tolist()
+        ev = []
+        for t in base:
+            r = rng.random()
+            if r < 0.15:
+                continue
+            ev.append(max(0.0, t + rng.choice([0.0, 0.0, 0.01, -0.03, 0.06, 0.2])))
+            if r > 0.9:
+                ev.append(t + rng.uniform(0.1, 0.4))
+        ev = sorted(ev)
+        return {"ev": np.array(ev, dtype=float), "labels": ["e%d" % i for i in range(len(ev))]}
     n = _n(rng, spec)
     style = rng.choice(["beats", "random", "random", "dense"])
     if style == "beats":
@@ -138,6 +166,18 @@ def b_melody(rng, spec, ctx):
 
 def b_multipitch(rng, spec, ctx):
     np = _np()
+    if _derive(spec, ctx, "multipitch"):
+        base = b_multipitch(_base_rng(ctx, "multipitch"), {"role": "ref", "seed": 0, "n": None}, ctx)
+        freqs = []
+        for fr in base["freqs"]:
+            out = [f * rng.choice([1.0, 1.0, 1.0, 1.02, 2.0, 0.5, 1.06]) for f in fr.tolist() if rng.random() > 0.15]
+            if rng.random() < 0.15:
+                out.append(rng.uniform(60, 2000))
+            freqs.append(np.array(sorted(out), dtype=float))
+        time = base["time"] + rng.choice([0.0, 0.0, 0.004])
+        d = dict(base)
+        d.update({"time": np.array(time, dtype=float), "freqs": freqs})
+        return d
     n = _n(rng, spec, 0, 25)
     hop = rng.choice([0.01, 0.0116, 0.02])
     time = np.array([i * hop for i in range(n)], dtype=float)
@@ -153,6 +193,20 @@ def b_multipitch(rng, spec, ctx):
 
 def b_notes(rng, spec, ctx):
     np = _np()
+    if _derive(spec, ctx, "notes"):
+        base = b_notes(_base_rng(ctx, "notes"), {"role": "ref", "seed": 0, "n": None}, ctx)
+        iv, pitch, vel = [], [], []
+        for (a, b), p, v in zip(base["iv"].tolist(), base["pitch"].tolist(), base["vel"].tolist()):
+            r = rng.random()
+            if r < 0.15:
+                continue
+            a2 = round(max(0.0, a + rng.choice([0.0, 0.0, 0.02, -0.04, 0.08])), 3)
+            b2 = round(max(a2 + 0.01, b + rng.choice([0.0, 0.0, 0.03, -0.1, 0.3])), 3)
+            iv.append([a2, b2])
+            pitch.append(p * rng.choice([1.0, 1.0, 1.0, 1.01, 2.0, 2 ** (1 / 12.0)]))
+            vel.append(max(1.0, min(127.0, v + rng.choice([0, 0, 5, -20]))))
+        n = len(iv)
+        return {"iv": np.array(iv, dtype=float).reshape(n, 2), "pitch": np.array(pitch, dtype=float), "vel": np.array(vel, dtype=float)}
     n = _n(rng, spec, 0, 12)
     iv, t = [], 0.0
     for _ in range(n):
@@ -166,6 +220,29 @@ def b_notes(rng, spec, ctx):
 
 
 def b_patterns(rng, spec, ctx):
+    if _derive(spec, ctx, "patterns"):
+        base = b_patterns(_base_rng(ctx, "patterns"), {"role": "ref", "seed": 0, "n": None}, ctx)["pat"]
+        pats = []
+        for pat in base:
+            r = rng.random()
+            if r < 0.2:
+                continue
+            occs = []
+            for occ in pat:
+                q = rng.random()
+                if q < 0.2 and len(pat) > 1:
+                    continue
+                if q > 0.7:
+                    occ = [(a + rng.choice([0.0, 0.5]), b + rng.choice([0.0, 0.0, 1.0])) for a, b in occ]
+                    if len(occ) > 1 and rng.random() < 0.5:
+                        occ = occ[:-1]
+                occs.append(list(occ))
+            if occs:
+                pats.append(occs)
+        if rng.random() < 0.5 or not pats:
+            pats.append([[(round(rng.uniform(30, 40), 1), float(rng.randrange(50, 80))) for _ in range(rng.randrange(1, 4))]])
+        rng.shuffle(pats)
+        return {"pat": pats}
     n = _n(rng, spec, 1, 4)
     pats = []
     for _ in range(n):
@@ -219,7 +296,7 @@ def b_sonify(rng, spec, ctx):
     k = rng.randrange(1, 4)
     return {"times": times, "chroma": np.abs(g.randn(12, n)), "gram": np.abs(g.randn(k, n)),
             "freqs": np.array(sorted(rng.uniform(100, 600) for _ in range(k))),
-            "contour": np.array([rng.choice([0.0, rng.uniform(100, 500)]) for _ in range(n)]),
+            "contour": np.array([rng.choice([0.0, rng.uniform(100, 500), rng.uniform(100, 500), float("nan"), -50.0]) for _ in range(n)]),
             "amps": np.abs(g.randn(n)),
             "iv": np.array(list(zip(np.concatenate(([0.0], times[:-1])), times))),
             "labels": [rng.choice(CHORD_LABELS) for _ in range(n)]}
@@ -253,6 +330,7 @@ BUILDERS = {
 
 def gen_ctx(rng):
     ctx = _gen_ctx(rng)
+    ctx["base_seed"] = rng.getrandbits(40)
     ctx["nsrc"] = rng.choice([1, 2, 2])
     ctx["nsampl"] = 2 * ctx["nsrc"] * 512 + rng.choice([0, 100, 600])
     return ctx
